@@ -109,10 +109,66 @@ class LibMixin:
             r = h(self, e, path, kind)
             if r is not None:
                 return r
+        if kind == "dict" and len(e.generators) == 1:
+            r = self.dict_comprehension(e, path)
+            if r is not None:
+                return r
         if kind == "list" and len(e.generators) == 1 and all(self.is_pure_expr(c) for c in e.generators[0].ifs) \
                 and self.is_pure_expr(e.elt):
             return self.filter_comprehension(e, path)
         raise Unsupported(f"{kind} comprehension over a symbolic sequence with filter / several generators", e)
+
+    def dict_comprehension(self, e, path):
+        """{k: v for k, v in d.items() if P}: same keys and values, filtered (the only shape finam uses)"""
+        gen = e.generators[0]
+        it = gen.iter
+        if not (isinstance(it, ast.Call) and isinstance(it.func, ast.Attribute) and it.func.attr == "items"
+                and isinstance(gen.target, ast.Tuple) and len(gen.target.elts) == 2
+                and isinstance(e.key, ast.Name) and isinstance(e.value, ast.Name)
+                and isinstance(gen.target.elts[0], ast.Name) and isinstance(gen.target.elts[1], ast.Name)
+                and e.key.id == gen.target.elts[0].id and e.value.id == gen.target.elts[1].id):
+            return None
+        d = self.eval(it.func.value, path)
+        if isinstance(d, sv.SUnion) and any(isinstance(x, sv.SDict) for _g, x in d.alts):
+            d = self.expect(d, sv.SDict, path, e, what="none")
+        if not isinstance(d, sv.SDict) or not all(self.is_pure_expr(c) for c in gen.ifs):
+            return None
+        env0 = dict(path.env)
+        kname, vname = gen.target.elts[0].id, gen.target.elts[1].id
+
+        def pred(k, self=self, d=d, env0=env0, gen=gen, path=path):
+            p = path.clone()
+            p.env = dict(env0)
+            p.env[kname] = d.kwrap(k)
+            p.env[vname] = d.val(k)
+            self.silent += 1
+            try:
+                return sv.And(*[self.truthy(self.eval(c, p), p) for c in gen.ifs])
+            finally:
+                self.silent -= 1
+
+        # safety of the filter at a generic key of the dict
+        ks = getattr(d, "ksort", None)
+        if ks is None:
+            return None
+        kk = z3.Const(sv.uid("dk"), ks)
+        saved = dict(path.env)
+        n_pc = len(path.pc)
+        path.guards.append(d.dom(kk))
+        try:
+            path.env[kname] = d.kwrap(kk)
+            path.env[vname] = d.val(kk)
+            for c in gen.ifs:
+                self.eval(c, path)
+        finally:
+            path.guards.pop()
+            path.env = saved
+        # facts learnt at the generic key (e.g. "no KeyError happened") hold for every key of the dict
+        for i in range(n_pc, len(path.pc)):
+            f = path.pc[i]
+            if _mentions(f, kk):
+                path.pc[i] = z3.ForAll([kk], f)
+        return self.dict_filter(d, pred, path)
 
     def filter_comprehension(self, e, path):
         """[f(x) for x in xs if P(x)] over a symbolic sequence: the result is xs filtered by P in order.
@@ -572,6 +628,22 @@ class LibMixin:
         if isinstance(v, sv._Leaf) and self.repo.has_cls(cname):
             return z3.BoolVal(False)
         raise Unsupported(f"isinstance({v}, {cname})", node)
+
+
+def _mentions(f, x):
+    stack, seen = [f], set()
+    while stack:
+        t = stack.pop()
+        if t.get_id() in seen:
+            continue
+        seen.add(t.get_id())
+        if t.eq(x):
+            return True
+        if z3.is_app(t):
+            stack.extend(t.children())
+        elif z3.is_quantifier(t):
+            stack.append(t.body())
+    return False
 
 
 def _strip_none(v):
